@@ -560,7 +560,8 @@ func parseRateLimit(rateLimit string) (rateCount int, rateWindow time.Duration, 
 		return
 	}
 	win := parts[1]
-	if len(win) > 0 && (win[0] < '0' || win[0] > '9') {
+	// bare unit like "s" means one unit; a window can also start with a fraction like ".5s"
+	if len(win) > 0 && win[0] != '.' && (win[0] < '0' || win[0] > '9') {
 		win = "1" + win
 	}
 	if rateWindow, err = time.ParseDuration(win); err != nil || rateWindow < 0 {
